@@ -176,7 +176,11 @@ def run_one(case):
             continue
         try:
             wire = mine[0].dump()
-            dec = rc.dec_stream(wire)[0]
+            try:
+                dec = rc.dec_stream(wire)[0]
+            except rc.RefDecodeError as e:
+                vs.append(V("the answer handed to the worker is a well-formed message", f"answer/undecodable/{outcome}", f"{e}; {wire.hex()[:80]}"))
+                continue
         except (rc.RefDecodeError, Exception) + errors as e:
             vs.append(V("the answer is a well-formed message", f"answer/undecodable/{kind}", repr(e)))
             continue
@@ -354,7 +358,10 @@ def run_concurrent(case):
             sched.spawn(dispatcher, "dispatcher")
             r_ = sched.run_until(lambda: len(threads) == n and all(not t.is_alive() for t in threads) and len(rec.sent) >= n or sched.overrun, 15.0)
             sched.run_until(lambda: False, 0.3)
-            sent = [rc.dec_stream(m.dump())[0] for m in rec.sent]
+            try:
+                sent = [rc.dec_stream(m.dump())[0] for m in rec.sent]
+            except rc.RefDecodeError as e:
+                return [V("the answer handed to the worker is a well-formed message", "concurrent/answer-undecodable", str(e))]
             for i, r in enumerate(reqs):
                 mine = [m for m in sent if m["hbh"] == case["hbh"][i]]
                 if len(mine) != 1:
